@@ -857,15 +857,25 @@ func runC10(f []string) string {
 		var out []string
 		count := 0
 		abortClass := ""
+		// the decoded values are rendered only after the whole stream has been read — as the tool does, which queues what it
+		// decodes while the reader goes on: a value must not change once it has been returned
+		type held struct {
+			r           redis.Resp
+			off         int64
+			unread      int
+		}
+		var hs []held
 		for {
 			r, off, class := c10must(d)
 			if class != "" {
 				abortClass = class
 				break
 			}
-			unread := len(data) - fr.pos + br.Buffered()
-			out = append(out, fmt.Sprintf("%s@%d/%d", show(r), off, unread))
+			hs = append(hs, held{r, off, len(data) - fr.pos + br.Buffered()})
 			count++
+		}
+		for _, h := range hs {
+			out = append(out, fmt.Sprintf("%s@%d/%d", show(h.r), h.off, h.unread))
 		}
 		// the error class, from a second decoder over the same bytes (MustDecodeOpt hides the error)
 		d2 := redis.NewDecoder(bufio.NewReader(bytes.NewReader(data)))
